@@ -497,7 +497,7 @@ where
       || has_custom_policy;
     let (janitor, maintenance_signal) = if needs_janitor {
       let tick_interval = self.janitor_tick_interval.unwrap_or(Duration::from_secs(1));
-      let (signal_tx, signal_rx) = std::sync::mpsc::sync_channel(self.shards.max(16));
+      let (signal_tx, signal_rx) = crate::task::janitor::signal_mpsc::sync_channel(self.shards.max(16));
       let janitor = Janitor::spawn(
         janitor_context,
         tick_interval,
